@@ -478,6 +478,14 @@ Definition sink_root (s : sink) : option tree :=
 (* ------------------------------------------------------------------ *)
 (* Parser                                                               *)
 
+(* char::len_utf8 of the character whose first byte is b *)
+Definition char_len (b : byte) : nat :=
+  if N.ltb b 128 then 1 else if N.ltb b 224 then 2 else if N.ltb b 240 then 3 else 4.
+(* Parser::char_range_at(pos).end: the end of the character at pos, pos itself at
+   the end of the input *)
+Definition char_end (text : list byte) (pos : nat) : nat :=
+  match nth_error text pos with Some b => pos + char_len b | None => pos end.
+
 Record pending := mkP { p_triv : list lexeme; p_start : nat; p_tlen : nat; p_tok : lexeme }.
 Definition P_EMPTY : pending := mkP [] 0 0 (mkLex K_Tombstone 0).
 
@@ -609,7 +617,7 @@ Section Parser.
   | OBump (n : nat) (k : N)                          (* do_bump::<N>(kind): eat_remap, eat_tag *)
   | OSplit (parts : list (nat * nat * N))            (* split_remap_current *)
   | OErr (hard : bool)                               (* err / warn: nth_range(0) *)
-  | OErrBeforeWs (hard : bool)                       (* err_before_ws / warn_before_ws *)
+  | OErrBeforeWs (hard : bool)                       (* err_before_ws / warn_before_ws: the character at pos *)
   | ORawErr (lo hi : nat).                           (* raw_error with a range saved earlier *)
 
   Definition step (st : pstate) (o : op) : option pstate :=
@@ -631,7 +639,7 @@ Section Parser.
     | OErr hard =>
         Some (with_sink st (sink_error (mkDiag (tok_start (b0 st)) (tok_end (b0 st)) hard) (sk st)))
     | OErrBeforeWs hard =>
-        Some (with_sink st (sink_error (mkDiag (p_start (b0 st)) (p_start (b0 st) + 1) hard) (sk st)))
+        Some (with_sink st (sink_error (mkDiag (p_start (b0 st)) (char_end text (p_start (b0 st))) hard) (sk st)))
     | ORawErr lo hi => Some (with_sink st (sink_error (mkDiag lo hi true) (sk st)))
     end.
 
